@@ -30,6 +30,7 @@ import (
 
 	"github.com/modelcontextprotocol/go-sdk/internal/verifharness/vh"
 	"github.com/modelcontextprotocol/go-sdk/internal/verifharness/vhm"
+	"github.com/modelcontextprotocol/go-sdk/jsonrpc"
 	"github.com/modelcontextprotocol/go-sdk/mcp"
 )
 
@@ -233,6 +234,9 @@ func (g *c02Gen) call(id string) c02Msg {
 			`"io.modelcontextprotocol/clientCapabilities":{},"io.modelcontextprotocol/clientInfo":17`, `"io.modelcontextprotocol/clientInfo":null`,
 			`"io.modelcontextprotocol/clientCapabilities":[],"io.modelcontextprotocol/clientInfo":null`)
 		return mk("bad-meta", c02AnyError, r.Choose("tools/list", "tools/call", "server/discover", "ping"), `{"_meta":{"io.modelcontextprotocol/protocolVersion":"2026-07-28",`+meta+`},"name":"echo","arguments":{}}`)
+	case x == 7 && r.Bool():
+		// a handler whose error carries data that is not JSON: the request is still owed its one response, an error
+		return mk("unencodable-error-data", c02AnyError, "prompts/get", `{"name":"baderr"}`)
 	case x == 7:
 		// a handler whose result cannot be put on the wire (NaN): the request is still owed its one response, an error
 		return mk("unencodable-result", c02AnyError, "tools/call", `{"name":"nan","arguments":{}}`)
@@ -430,6 +434,9 @@ func c02Server() *mcp.Server {
 	})
 	s.AddResource(&mcp.Resource{URI: "file:///r", Name: "r"}, func(context.Context, *mcp.ReadResourceRequest) (*mcp.ReadResourceResult, error) {
 		return &mcp.ReadResourceResult{Contents: []*mcp.ResourceContents{{URI: "file:///r", Text: "x"}}}, nil
+	})
+	s.AddPrompt(&mcp.Prompt{Name: "baderr"}, func(context.Context, *mcp.GetPromptRequest) (*mcp.GetPromptResult, error) {
+		return nil, &jsonrpc.Error{Code: 5, Message: "x", Data: json.RawMessage("{bad")}
 	})
 	s.AddPrompt(&mcp.Prompt{Name: "p"}, func(context.Context, *mcp.GetPromptRequest) (*mcp.GetPromptResult, error) {
 		return &mcp.GetPromptResult{}, nil
